@@ -59,6 +59,7 @@ class BaseValidator(object):
         self._expected_item_count = len(self._cid.field_formats)
         self._location = None
         self._is_closed = False
+        self._has_reset_checks = False
 
     def __enter__(self):
         return self
@@ -152,6 +153,14 @@ class BaseValidator(object):
         for check_name in self.cid.check_names:
             self.cid.check_map[check_name].check_row(field_map, self.location)
 
+    def _reset_checks(self):
+        """
+        Make the checks forget anything they remember from earlier validations using the same CID.
+        """
+        for check in self.cid.check_map.values():
+            check.reset()
+        self._has_reset_checks = True
+
     def close(self):
         """
         Validate final checks and release all resources. When called a second
@@ -161,6 +170,10 @@ class BaseValidator(object):
           :py:meth:`cutplace.checks.AbstractCheck.check_at_end` fails.
         """
         if not self._is_closed:
+            if not self._has_reset_checks:
+                # No row has been processed, so the final checks have to judge empty data instead of
+                # what an earlier validation using the same CID left behind.
+                self._reset_checks()
             try:
                 for check_name in self.cid.check_names:
                     self.cid.check_map[check_name].check_at_end(self.location)
@@ -249,8 +262,7 @@ class Reader(BaseValidator):
         self.rejected_rows_count = 0
         # Start counting rows from the beginning in case the reader is iterated another time.
         self._location = errors.Location(self._location.file_path, has_cell=True)
-        for check in self.cid.check_map.values():
-            check.reset()
+        self._reset_checks()
         header_row_count = self._cid.data_format.header
         for row_count, row in enumerate(self._raw_rows(), 1):
             try:
@@ -292,9 +304,7 @@ class Writer(BaseValidator):
         assert target is not None
 
         super().__init__(cid_or_path)
-        # Forget anything the checks remember from earlier validations using the same CID.
-        for check in self.cid.check_map.values():
-            check.reset()
+        self._reset_checks()
 
         data_format = cid_or_path.data_format
         assert self.cid.data_format.is_valid
